@@ -193,6 +193,23 @@ func (r *runner) runScript(script [][][]*t_aio.Command, dialect string) (int, M)
 	var prevDump M
 	for bi, txs := range script {
 		obs := im.batch(txs)
+		if monitors["C14"] && prevDump != nil && obs["err"] == false {
+			// a search that is the first command of its batch is checked against the property itself
+			if len(txs) > 0 && len(txs[0]) > 0 && txs[0][0].Kind == t_aio.SearchPromises {
+				if res, ok := obs["results"].([]any); ok && len(res) > 0 {
+					cj, _ := lean.NormalizeValue(canon.Cmd(txs[0][0])["c"])
+					rj, _ := lean.NormalizeValue(res[0].([]any)[0])
+					got := []M{}
+					for _, x := range rj.(map[string]any)["rows"].([]any) {
+						got = append(got, x.(map[string]any))
+					}
+					if what := monitor.SearchPromises(prevDump, cj.(map[string]any), got); what != "" {
+						return bi, M{"what": "property monitor failed on the implementation", "property": "C14", "diff": what, "property_violation": true}
+					}
+					r.counts["search_checked"]++
+				}
+			}
+		}
 		if d, ok := obs["db"].(M); ok {
 			if nd, err := lean.NormalizeValue(d); err == nil {
 				cur := nd.(map[string]any)
